@@ -225,3 +225,79 @@ Proof.
     + intros (i & j & Hi & Hj & ->). exists i, j. auto.
     + intros (i & j & Hi & Hj & ->). exists i, j. auto.
 Qed.
+
+(* ------------------------------------------------------------------ norm_frob at the float instance *)
+(* the correctly rounded square root as a total standard-model operation on the reals (cf. Fmul of RoundDotFloat.v) *)
+Definition Fsqrt (x : R) : R :=
+  if nounder (R_sqrt.sqrt x) then rnd64 (R_sqrt.sqrt x) else R_sqrt.sqrt x.
+
+Lemma Fsqrt_ok x : 0 <= x -> exists d, Rabs d <= u64 /\ Fsqrt x = R_sqrt.sqrt x * (1 + d).
+Proof.
+  intros _. unfold Fsqrt. destruct (nounder (R_sqrt.sqrt x)) eqn:E; [|apply exact_ok].
+  apply rnd64_rel_ex. now apply nounder_true.
+Qed.
+
+(* the square root of a float never underflows *)
+Lemma sqrt_fmt_nounder y : fmt y -> no_underflow (R_sqrt.sqrt y).
+Proof.
+  intros Fy. destruct (Rle_lt_dec y 0) as [Hy|Hy].
+  - left. destruct Hy as [Hy| ->]; [now apply sqrt_neg_0; left|apply sqrt_0].
+  - right.
+    assert (B : bpow radix2 (-1074) <= y).
+    { apply (generic_format_ge_bpow radix2 (FLT_exp (-1074) 53)); auto.
+      intros e. unfold FLT_exp. apply Z.le_max_r. }
+    rewrite Rabs_pos_eq by apply sqrt_pos.
+    apply Rle_trans with (bpow radix2 (-537)); [apply bpow_le; lia|].
+    change (-1074)%Z with (2 * -537)%Z in B. rewrite <- (sqrt_bpow radix2 (-537)).
+    now apply sqrt_le_1_alt.
+Qed.
+
+Lemma fsqrt_float (x : pfloat) : ffinite (PrimFloat.sqrt x) -> ffinite x /\ FR (PrimFloat.sqrt x) = Fsqrt (FR x).
+Proof.
+  unfold ffinite, FR. rewrite sqrt_equiv. intros Hf.
+  destruct (Bsqrt_correct prec emax HP HM mode_NE (Prim2B x)) as (E & Ef & _).
+  change (round radix2 (fexp prec emax) (round_mode mode_NE)) with rnd64 in E.
+  split.
+  - rewrite Ef in Hf. destruct (Prim2B x) as [s|s| |[|] mx ex Bx]; try discriminate; reflexivity.
+  - rewrite E. unfold Fsqrt.
+    assert (N : nounder (R_sqrt.sqrt (B2R (Prim2B x))) = true).
+    { apply nounder_true, sqrt_fmt_nounder. apply (FR_fmt x). }
+    now rewrite N.
+Qed.
+
+Notation SA64r := (RoundNorm2.SARm Fadd Fsub Fmul Fdiv Fsqrt).
+
+Lemma mnorm_frob_float_lemma (m : matrix AF) (Rf : pfloat) : wf m ->
+  mnorm_frob (S:=SAF) m = Ok Rf -> ffinite Rf ->
+  (forall k, (k < length (buf m))%nat -> ffinite (nth k (buf m) 0%float)) ->
+  (forall k, (k < length (buf m))%nat -> no_underflow (FR (nth k (buf m) 0%float) * FR (nth k (buf m) 0%float))) ->
+  INR (rows m * cols m + 1) * u64 < 1 ->
+  exists th N, Rabs th <= g64 (rows m * cols m + 1) /\
+    mnorm_frob (S:=SAR) (fm m) = Ok N /\ FR Rf = N * (1 + th).
+Proof.
+  intros Hw E Ff Hfin Hnu Hn.
+  rewrite (mnorm_frob_lemma (SS:=SAF) m Hw) in E. injection E as <-.
+  set (n := length (buf m)) in *.
+  set (a := fun k => abs (a:=AF) (nth k (buf m) (@zero AF))).
+  change (ffinite (PrimFloat.sqrt (sum_n (A:=AF) n (fun k => (a k * a k)%float)))) in Ff.
+  change (exists th N, Rabs th <= g64 (rows m * cols m + 1) /\ mnorm_frob (S:=SAR) (fm m) = Ok N /\
+            FR (PrimFloat.sqrt (sum_n (A:=AF) n (fun k => (a k * a k)%float))) = N * (1 + th)).
+  destruct (fsqrt_float _ Ff) as (Fs & Es). rewrite Es.
+  assert (Ea : forall k, (k < n)%nat -> FR (a k) = Rabs (FR (nth k (buf m) 0%float))).
+  { intros k Hk. exact (proj2 (fabs_FR _ (Hfin k Hk))). }
+  rewrite (sum_n_float_transfer n a a Fs).
+  2:{ intros k Hk. rewrite (Ea k Hk). rewrite <- Rabs_mult. destruct (Hnu k Hk) as [Z|B].
+      - left. rewrite Z. apply Rabs_R0.
+      - right. now rewrite Rabs_Rabsolu. }
+  (* the same function in the standard-model arithmetic on the real values *)
+  set (m' := mkM (A:=A64r) (map FR (buf m)) (rows m) (cols m)).
+  assert (Hw' : wf m') by (unfold wf, m'; cbn [buf rows cols]; rewrite map_length; exact Hw).
+  destruct (mnorm_frob_rounding_lemma u64 u64_range Fadd Fsub Fmul Fdiv Fsqrt Fadd_ok Fmul_ok Fadd_0_mul Fsqrt_ok m' Hw' Hn)
+    as (th & N & Hth & EN & Ef').
+  exists th, N. split; [exact Hth|]. split; [exact EN|].
+  rewrite (mnorm_frob_lemma (SS:=SA64r) m' Hw') in Ef'. injection Ef' as Ef'. rewrite <- Ef'.
+  change (Fsqrt (sum_n (A:=A64r) n (fun k => Fmul (FR (a k)) (FR (a k)))) =
+          Fsqrt (sum_n (A:=A64r) (length (map FR (buf m))) (fun k => Fmul (Rabs (nth k (map FR (buf m)) 0)) (Rabs (nth k (map FR (buf m)) 0))))).
+  rewrite map_length. fold n. f_equal. apply (sum_n_ext (A:=A64r)). intros k Hk.
+  rewrite (Ea k Hk), nth_map_FR_s. reflexivity.
+Qed.
